@@ -120,6 +120,9 @@ def probes(env, U):
     run(lambda: m.And(m.LT(m.Plus(U["x"], U["z"], m.Int(7)), U["y"]), U["a"]))
     run(lambda: U["f1"].substitute({U["x"]: U["y"], U["z"]: m.Plus(U["y"], m.Int(3))}))
     run(lambda: SmtLibParser(env).get_script(io.StringIO("(declare-fun x () Int)(assert (< x 3))")).get_last_formula())
+    # name and identity bookkeeping (plain strings: not normalised by key_of)
+    from pysmt import typing as T
+    run(lambda: "fresh:" + m.FreshSymbol(T.INT).symbol_name())
     return out
 
 
